@@ -448,6 +448,9 @@ func (c *ctx) engineCase(a, b Schema, desc string, o engineOpts) {
 	ic := "input-class=" + classifyFor(a, b, o.inspected) + "; "
 	for _, r := range o.rows {
 		if err := l.exec(insertSQL(r, *a.table(r.table))); err != nil {
+			if !o.withModel && rowError(err) {
+				continue // e.g. a UNIQUE expression index all generated rows collide on: the row is left out
+			}
 			panic(fmt.Sprintf("harness: insert failed: %v (%s)", err, insertSQL(r, *a.table(r.table))))
 		}
 	}
@@ -649,9 +652,11 @@ func runEngine(c *ctx) {
 			d += "+uniques"
 		}
 		if c.r.Chance(1, 3) && simpleDefaults(b) && !strings.Contains(d, "mod-col-type") && d != "unrelated" {
+			noNull = aliasCols(b)
 			for _, t := range a.Tables {
 				o.rows = append(o.rows, genRows(c.g, t)...)
 			}
+			noNull = nil
 			if len(o.rows) > 0 {
 				d += "+rows"
 			}
@@ -782,9 +787,11 @@ func runUpDown(c *ctx) {
 		}
 		o := engineOpts{updown: true, file: c.r.Chance(1, 3), fk: c.r.Bool(), withModel: true, viaAtlas: c.r.Chance(1, 3)}
 		if c.r.Chance(1, 3) && simpleDefaults(b) && !strings.Contains(d, "mod-col-type") && d != "unrelated" {
+			noNull = aliasCols(b)
 			for _, t := range a.Tables {
 				o.rows = append(o.rows, genRows(c.g, t)...)
 			}
+			noNull = nil
 		}
 		c.engineCase(a, b, d, o)
 	}
